@@ -25,7 +25,7 @@ def run(rep, tier, seed):
                 "wrong counts and two slots; plus the conversion table and the documented built-ins against the Go functions "
                 "they expose; non-trivial: every pipeline; distinct by source text")
     vec = vectors(rep, wd, exe, tier)
-    replay_vectors(rep, exe, "replay-C14", vec)
+    replay_vectors(rep, exe, "replay-C14", vec, shards=4)
     rep.exhaustive = True
 
 def arguments_part(rep, wd, exe, tier, seed):
